@@ -36,7 +36,25 @@ import (
 // ---------- service ids: text identity and the storage key path.Join sends them to ----------
 
 // keys below gc/safe_point/service/ that the model numbers; the numbering is the byte order of the keys
-var keyNum = map[string]int64{"a1": -20, "a1/sub": -15, "b2": -10, "gc_worker": 0, "h4": 10, "q9": 15, "z5": 20}
+var keyNum = map[string]int64{"a1": -20, "a1/sub": -15, "b2": -10, "gc_worker": 0, "h4": 10, "q9": 15, "z5": 100000}
+
+// bulk ids: tNNN and its extension tNNN-x, for every NNN: every id at a page boundary of a paged range read has an id that
+// extends it right behind it (byte order: t000 < t000-x < t001 < ...; all between q9 and z5)
+const bulkN = 115
+
+func bulkID(k int, ext bool) string {
+	if ext {
+		return fmt.Sprintf("t%03d-x", k)
+	}
+	return fmt.Sprintf("t%03d", k)
+}
+
+func init() {
+	for k := 0; k < bulkN; k++ {
+		keyNum[bulkID(k, false)] = int64(1000 + 20*k)
+		keyNum[bulkID(k, true)] = int64(1000 + 20*k + 10)
+	}
+}
 
 // ids that are not a single clean path element get text numbers 100+ (checkServiceID refuses them since the fix)
 var oddIDs = []string{"..", "x/../gc_worker", "x/../h4", "../x", "h4/", "../service/b2", "../../gc/safe_point", "a1/sub"}
@@ -110,6 +128,7 @@ type op struct {
 	SP  uint64 `json:",omitempty"`
 	Exp int64  `json:",omitempty"` // seed: absolute expiry; ExpRel != 0: relative to the wall clock at execution
 	Rel int64  `json:",omitempty"`
+	Many []seedEnt `json:",omitempty"` // seedmany
 	X    *xenv    `json:",omitempty"` // svcx: what happens to the storage operations of the first LoadMin
 	D    []string `json:",omitempty"` // svcil / svcx: services deleted through REST while the request's own save is parked
 	Wait int   `json:",omitempty"` // milliseconds of real time to let pass before the op (thorough tier: real expiry)
@@ -146,8 +165,21 @@ func (o op) coq() string {
 		return "OApiDel " + sidCoq(o.ID)
 	case "seed":
 		return fmt.Sprintf("OSeed %s %s %s", sidCoq(o.ID), coqfmt.Z(o.Exp), coqfmt.ZU(o.SP))
+	case "seedmany":
+		xs := make([]string, len(o.Many))
+		for i, e := range o.Many {
+			xs[i] = fmt.Sprintf("(%s, (%s, %s))", sidCoq(e.ID), coqfmt.Z(e.Exp), coqfmt.ZU(e.SP))
+		}
+		return "OSeedMany " + coqfmt.List(xs)
 	}
 	panic("bad op " + o.K)
+}
+
+type seedEnt struct {
+	ID  string
+	Rel int64 `json:",omitempty"` // expiry relative to the wall clock at execution (0: use Exp)
+	Exp int64 `json:",omitempty"`
+	SP  uint64
 }
 
 // xenv: storage outcomes (0 Ok, 1 ErrNotApplied, 2 ErrApplied) and REST deletes at single storage operations of LoadMin
@@ -348,12 +380,44 @@ func (w *world) restList() {
 	w.R.Count("rest-list:checked")
 }
 
+// all reads the service safe points with the driver's own unlimited range read of the underlying kv.Base (not through
+// Storage.GetAllServiceGCSafePoints, which is itself under test: see checkGetAll)
 func (w *world) all() []*core.ServiceSafePoint {
-	all, err := w.st.GetAllServiceGCSafePoints()
+	_, vs, err := w.b.Inner().LoadRange(svcPrefix, clientv3.GetPrefixRangeEnd(svcPrefix), 0)
 	if err != nil {
 		panic(err)
 	}
-	return all
+	var out []*core.ServiceSafePoint
+	for _, v := range vs {
+		e := &core.ServiceSafePoint{}
+		if json.Unmarshal([]byte(v), e) == nil {
+			out = append(out, e)
+		}
+	}
+	return out
+}
+
+// checkGetAll: Storage.GetAllServiceGCSafePoints lists exactly what is stored
+func (w *world) checkGetAll() {
+	got, err := w.st.GetAllServiceGCSafePoints()
+	if err != nil {
+		return // unparsable entry: covered by malformedProbe
+	}
+	want := w.all()
+	same := len(got) == len(want)
+	for i := 0; same && i < len(want); i++ {
+		same = *got[i] == *want[i]
+	}
+	if !same {
+		missing := ""
+		for _, e := range want {
+			if find(got, e.ServiceID) == nil {
+				missing += " " + e.ServiceID
+			}
+		}
+		w.R.Violate("C15:get-all-service-safe-points-incomplete",
+			fmt.Sprintf("GetAllServiceGCSafePoints lists %d of the %d stored registrations; missing:%s", len(got), len(want), missing), nil)
+	}
 }
 
 func entryCoq(e *core.ServiceSafePoint) string {
@@ -603,6 +667,20 @@ func (w *world) exec(o *op) string {
 			return "BErr"
 		}
 		return fmt.Sprintf("BBad (* http %d *)", rec.Code)
+	case "seedmany":
+		now := time.Now().Unix()
+		for i := range o.Many {
+			e := &o.Many[i]
+			if e.Rel != 0 {
+				e.Exp, e.Rel = now+e.Rel, 0
+			}
+			v, _ := json.Marshal(&core.ServiceSafePoint{ServiceID: e.ID, ExpiredAt: e.Exp, SafePoint: e.SP})
+			if err := w.b.Inner().Save(path.Join("gc", "safe_point", "service", e.ID), string(v)); err != nil {
+				panic(err)
+			}
+		}
+		w.checkGetAll()
+		return "BUnit"
 	case "seed":
 		if o.Rel != 0 {
 			o.Exp = time.Now().Unix() + o.Rel
@@ -633,6 +711,7 @@ func (c caseRec) coq() string {
 func (w *world) step(c *caseRec, o op) string {
 	if len(c.Ops)%8 == 7 {
 		w.restList()
+		w.checkGetAll()
 	}
 	if o.Wait > 0 {
 		time.Sleep(time.Duration(o.Wait) * time.Millisecond)
@@ -881,6 +960,31 @@ func (w *world) describe(c caseRec) {
 	}
 }
 
+// bulk: more than two pages (of 100) of registrations in which every id is followed by an id that extends it; the
+// extensions at what would be page boundaries hold the smallest safe point / are expired
+func bulk(r *rng.R) op {
+	o := op{K: "seedmany"}
+	o.Many = append(o.Many, seedEnt{ID: "gc_worker", Exp: math.MaxInt64, SP: 50})
+	low1, low2, dead := 49, 99, 24
+	if r != nil {
+		low1, low2, dead = r.Intn(bulkN), r.Intn(bulkN), r.Intn(bulkN)
+	}
+	for k := 0; k < bulkN; k++ {
+		o.Many = append(o.Many, seedEnt{ID: bulkID(k, false), Rel: 5000, SP: uint64(100 + k)})
+		e := seedEnt{ID: bulkID(k, true), Rel: 5000, SP: uint64(300 + k)}
+		switch k {
+		case low1:
+			e.SP = 20
+		case low2:
+			e.SP = 10
+		case dead:
+			e.Rel = -3000
+		}
+		o.Many = append(o.Many, e)
+	}
+	return o
+}
+
 // genSvcX: a registration whose first LoadMin meets storage faults and REST deletes at its single storage operations.
 // Steps are attached to the entries that make the loop issue an operation: clearly expired ones (their Remove) and a
 // finite gc_worker entry (its repair save).
@@ -988,6 +1092,9 @@ func genSeed(r *rng.R, odd int) op {
 func (w *world) genCase(r *rng.R, kind int, maxOps int, lockedMode bool) caseRec {
 	var c caseRec
 	n := 6 + r.Intn(maxOps)
+	if kind == 1 && r.Pct(4) {
+		w.step(&c, bulk(r)) // hundreds of prefix-related registrations first
+	}
 	odd := 0
 	if kind == 2 {
 		odd = 45
@@ -1116,6 +1223,10 @@ func directed() [][]op {
 			{K: "svcx", ID: "h4", TTL: 1000, SP: 15, X: &xenv{}}, {K: "apidel", ID: "h4"}},
 		{{K: "seed", ID: "a1", Rel: 2000, SP: math.MaxUint64}, {K: "svcx", ID: "h4", TTL: 1000, SP: 15, X: &xenv{Init: 1}}, {K: "svcx", ID: "h4", TTL: 1000, SP: 15, X: &xenv{Init: 2}},
 			{K: "svcx", ID: "h4", TTL: 1000, SP: 15, X: &xenv{}}},
+		// > 200 registrations, every id followed by an id extending it (t049 / t049-x ...): a paged or prefix-based range read
+		// must not lose any of them; the smallest safe points and an expired entry sit right behind would-be page boundaries
+		{bulk(nil), {K: "svc", ID: "a1", TTL: 1000, SP: 500}, {K: "svc", ID: "t099-x", TTL: 1000, SP: 12}, {K: "svc", ID: "t049-x", TTL: 0, SP: 0},
+			{K: "svc", ID: "gc_worker", TTL: math.MaxInt64, SP: 60}, {K: "apidel", ID: "t099-x"}, {K: "svc", ID: "b2", TTL: 1000, SP: 55}},
 		// every live safe point is MaxUint64
 		{{K: "svc", ID: "gc_worker", TTL: inf, SP: math.MaxUint64}, {K: "svc", ID: "a1", TTL: 1000, SP: math.MaxUint64}, {K: "svc", ID: "a1", TTL: 1000, SP: 5}},
 	}
